@@ -29,7 +29,90 @@ def check(tier: str) -> int:
             gen.replay_file(chk, r.workdir / "out.ndjson", "harness.c18", "judge18")
         finally:
             r.cleanup()
+    # markers inside a translate block: the message that is looked up, and so the translation that is printed, is that of
+    # the unmarked block (LiquidMsg, variant "markers"; the catalog double translates)
+    from . import tlc
+    r = tlc.run("LiquidMsg", tlc.cfg_text(constants={"MaxTop": "2", "Focus": '"trim-translate"', "Variant": '"markers"'},
+                                          invariants=["Covered", "CommentsOnce", "Export"]), tag="trim-translate", timeout=3000)
+    try:
+        if r.error:
+            chk.machinery_error = r.error
+        elif r.invariant_violated:
+            chk.spec_violation(r, "LiquidMsg markers")
+        else:
+            chk.tlc(r, "translate blocks whose message variables carry markers (LiquidMsg markers)")
+            gen.replay_file(chk, r.workdir / "out.ndjson", "harness.c18", "judge18_msg")
+    finally:
+        r.cleanup()
     return chk.finish()
+
+
+class _German:
+    """A catalog that translates: a message id that changed with a marker is a message that is not found."""
+
+    @staticmethod
+    def _tr(m):
+        return m.replace("Hello", "Hallo").replace("Dear", "Liebe")
+
+    def gettext(self, message):
+        return self._tr(message)
+
+    def ngettext(self, singular, plural, n):
+        return self._tr(singular if n == 1 else plural)
+
+    def pgettext(self, ctx, message):
+        return self._tr(message)
+
+    def npgettext(self, ctx, singular, plural, n):
+        return self._tr(singular if n == 1 else plural)
+
+
+class _Exact(_German):
+    """A catalog with entries for the unmarked messages only (what a translator was given)."""
+
+    def __init__(self, known):
+        self.known = known
+
+    def _tr(self, m):  # type: ignore[override]
+        return _German._tr(m) if m in self.known else m
+
+
+def judge18_msg(rec, opts):
+    import re
+
+    from liquid2 import Environment, WhitespaceControl
+    from liquid2.exceptions import LiquidError
+    from liquid2.messages import extract_from_template
+
+    def nows(s):
+        return re.sub(r"\s+", "", s)
+    out = []
+    try:
+        plain = Environment().from_string(rec["plain"])
+        known = set()
+        for m in extract_from_template(plain):
+            for part in m.message:
+                known.add(part[0] if isinstance(part, tuple) else part)
+    except LiquidError as e:
+        return [(f"{rec['focus']}:does-not-parse", {"src": rec["plain"], "error": str(e)[:200]})]
+    for n in (1, 2):
+        data = dict(m="Hello", pl="Hellos", cx="vctx", n=n, yes=True, no=False)
+        want = plain.render(translations=_Exact(known), **data)
+        for mode in (WhitespaceControl.PLUS, WhitespaceControl.MINUS, WhitespaceControl.TILDE):
+            try:
+                got = Environment(default_trim=mode).from_string(rec["src"]).render(translations=_Exact(known), **data)
+            except LiquidError as e:
+                out.append((f"{rec['focus']}:raises-with-markers", {"src": rec["src"], "error": str(e)[:200]}))
+                return out
+            if nows(got) != nows(want):
+                out.append((f"{rec['focus']}:text-differs:translate", {"src": rec["src"], "plain": rec["plain"], "trim": mode.name,
+                                                                        "n": n, "want": want, "got": got}))
+                return out
+            # with no trimming in force the marked block prints exactly what the unmarked one prints
+            if mode is WhitespaceControl.PLUS and got != want:
+                out.append((f"{rec['focus']}:whitespace-differs:translate", {"src": rec["src"], "n": n, "got": got, "want": want}))
+                return out
+    return out
 
 
 def judge18(rec, opts):
